@@ -82,6 +82,22 @@
         parse_auth(c.subrange(32, c.len() as int))->Ok_0
     }
 
+    /// the identity the connection runs under once the cookie decision is made: the accepted cookie's, else still the claim
+    pub open spec fn after_cookie(cfg: Cfg, d: D, cookie: Option<Seq<u8>>, clock: Option<u64>) -> D {
+        if cookie_accept(cfg, d, cookie, clock) {
+            D { name: cookie_of(cookie).user_name@, id: cookie_of(cookie).user_id, props: cookie_of(cookie).profile_properties, should_auth: false, ..d }
+        } else { D { should_auth: true, ..d } }
+    }
+    /// the identity after the encryption response: what the authentication service vouches for, or the cookie identity
+    pub open spec fn admitted(cfg: Cfg, d: D, ss: Seq<u8>) -> D {
+        if d.should_auth {
+            match auth_oracle(cfg.addr, (d.hs_addr, d.hs_port), d.pv, (d.name, d.id), ss, pub_key()) {
+                Ok(p) => D { name: p.name@, id: p.id, props: p.properties, ss, ..d },
+                Err(_) => D { ss, ..d },
+            }
+        } else { D { ss, ..d } }
+    }
+
     // ---- C03: what routing decides ------------------------------------------------------------------------
     pub open spec fn routing(cfg: Cfg, d: D) -> Result<Option<Target>, ()> {
         match discover_oracle() {
